@@ -414,7 +414,7 @@ template<size_t N> static std::string lexer_product_check(const rgx::dfa<N>& sm,
 
 static std::vector<TermSpec> c04_pool(int which) {
     std::vector<TermSpec> P = {{'c', "a"}, {'c', "b"}, {'s', "ab"}, {'s', "abc"}, {'s', "ba"}, {'r', "a+"}, {'r', "[a-c]+"}, {'r', "ab*"}, {'r', "a|b"}, {'r', "[^a ]"}, {'s', "a"}, {'r', "(ab)+"}};
-    if (which >= 1) { std::vector<TermSpec> Q = {{'r', "a*"}, {'r', "b?a"}, {'r', "[ab]c"}, {'s', "bb"}, {'r', "a{2}"}, {'r', "."}, {'r', "a[^;]*c"}, {'c', "c"}, {'c', " "}, {'r', "\\x0a"}, {'r', "[a-b]+c?"}, {'s', "cab"}, {'r', "(a|b)*c"}, {'r', "b+a?"}, {'r', "ab|a"}, {'r', "[^\\x00-\\x60]+"}, {'r', "c\\x20c"}, {'s', "a b"}}; P.insert(P.end(), Q.begin(), Q.end()); }
+    if (which >= 1) { std::vector<TermSpec> Q = {{'r', "a*"}, {'r', "b?a"}, {'r', "[ab]c"}, {'s', "bb"}, {'r', "a{2}"}, {'r', "."}, {'r', "a[^;]*c"}, {'c', "c"}, {'c', " "}, {'c', std::string(1, '\0')}, {'r', "\\x0a"}, {'r', "[a-b]+c?"}, {'s', "cab"}, {'r', "(a|b)*c"}, {'r', "b+a?"}, {'r', "ab|a"}, {'r', "[^\\x00-\\x60]+"}, {'r', "c\\x20c"}, {'s', "a b"}}; P.insert(P.end(), Q.begin(), Q.end()); }
     return P;
 }
 
@@ -519,7 +519,7 @@ template<class P> static void run_termset(P& p, const std::vector<TermSpec>& ts,
 static void run_c04() {
     g_list = make_list_parser();
     std::vector<TermSpec> pool = c04_pool(cfg.pool);
-    std::vector<std::string> inputs; gen_inputs(std::string("abc \n\t\r\v"), cfg.maxlen, inputs);
+    std::vector<std::string> inputs; gen_inputs(std::string("abc \n\t\r\v", 8) + std::string(1, '\0'), cfg.maxlen, inputs);
     long idx = 0;
     std::vector<std::vector<TermSpec>> sets;
     for (size_t i = 0; i < pool.size(); ++i) sets.push_back({pool[i]});
@@ -683,6 +683,23 @@ static void run_patterns(bool dump) {
     }
 }
 
+static bool parse_termset_line(const std::string& line, std::vector<TermSpec>& ts) {
+    ts.clear(); size_t p = 0;
+    while (p < line.size()) { size_t e = line.find(" | ", p); std::string t = line.substr(p, e == std::string::npos ? std::string::npos : e - p); if (t.size() < 3 || t[1] != ':') return false; ts.push_back(TermSpec{t[0], t.substr(2)}); if (e == std::string::npos) break; p = e + 3; }
+    return !ts.empty() && ts.size() <= 3;
+}
+static void run_dump_termsets(const std::string& file) {
+    g_list = make_list_parser();
+    std::ifstream in(file); std::string line;
+    while (std::getline(in, line)) {
+        if (line.empty() || line[0] == '#') continue;
+        std::vector<TermSpec> ts; if (!parse_termset_line(line, ts)) { std::printf("### %s\nBAD-LINE\n", line.c_str()); continue; }
+        long predicted = 0; Built b = install_lexer(*g_list, ts, predicted);
+        if (!b.ok) { std::printf("### %s\nREFUSED %s\n", line.c_str(), b.what.c_str()); continue; }
+        dump_dfa(line.c_str(), g_list->lexer_sm, predicted);
+    }
+}
+
 static void crash_handler(int sig) {
     char buf[1024]; int n = std::snprintf(buf, sizeof buf, "CRASH signal=%d phase=%s subject=%s input=%s\n", sig, cur_phase, vis(cur_subject).c_str(), vis(cur_input).c_str());
     if (write(2, buf, n) < 0) {}
@@ -718,6 +735,7 @@ int main(int argc, char** argv) {
     else if (cfg.mode == "c04") run_c04();
     else if (cfg.mode == "c10") run_c10();
     else if (cfg.mode == "c17") run_c17();
+    else if (cfg.mode == "dump-termsets") { run_dump_termsets(cfg.one); return 0; }
     else if (cfg.mode == "list-patterns") { run_patterns(false); return 0; }
     else if (cfg.mode == "dump-patterns") { run_patterns(true); return 0; }
     else if (cfg.mode == "c03-one") { bool v = run_one(); return v ? 1 : 0; }
